@@ -151,6 +151,16 @@ def pairs_text(pairs, spelling):
     return urlencode([(T(k), T(v)) for k, v in pairs], **kw).encode('ascii')
 
 
+def big_forms(sizes, vias, spelling='plus'):
+    """more fields than any plausible per-request budget: every one of them was sent and must come back"""
+    return [rt([('f%d' % i, 'v%d' % i) for i in range(n)], spelling, via) for n in sizes for via in vias]
+
+
+def big_repeats(nkeys, nrep, via, spelling='plus'):
+    """nkeys fields of which the first nrep are sent twice (a repeated key costs the setitem callback an extra store)"""
+    return rt([('k%d' % i, 'a') for i in range(nkeys)] + [('k%d' % i, 'b') for i in range(nrep)], spelling, via)
+
+
 def frame_corpus():
     import random
     rng = random.Random(18)
@@ -288,6 +298,12 @@ def corpus():
              ops=[['read', 'query'], ['set_qs', S('%zz=1&a'), None], ['read', 'query'], ['read', 'params'],
                   ['set_body', S('c==2&%'), None, 0], ['read', 'forms'], ['read', 'params']]),
         rt([], 'plus', 'query'), rt([('a', '')], 'plus', 'direct'),
+        # literal escape look-alikes in keys and values (seeded edit: %uXXXX expanded after unquote = decoded twice)
+        rt([('price', '10%u2019 off'), ('%u0041', 'key'), ('A', 'other key'), ('%41', 'x'), ('a%25', '%2541'), ('%', '%25')],
+           'plus', 'query'),
+        rt([('price', '10%u2019 off'), ('%u0041', 'key'), ('A', 'other key'), ('%41', 'x'), ('a%25', '%2541')], 'quote', 'forms'),
+        rt([(e, e) for e in ESCAPE_LOOKALIKES], 'plus', 'params_f'), rt([(e, e) for e in ESCAPE_LOOKALIKES], 'quote', 'direct'),
+        raw('a=%25u2019&%25u0041=1&A=2&b=%2541&c=%u2019&%u0041=3', 'query'),
     ] + [rt([(k, '1') for k in NAME_KEYS] + [('self', '2')], sp, via)
          for sp in ('plus', 'quote') for via in ('query', 'forms', 'params_q', 'params_f', 'direct')] + [
         seq([('self', 'q'), ('class', '1')], [('self', 'f'), ('cls', '2'), ('args', '3'), ('kwargs', '4'), ('mapping', '5'),
@@ -358,7 +374,7 @@ def corpus():
         dict(kind='cachein', form='key_kw', ro=False, fails=True, base=0, ops=[['get'], ['get'], ['set', 1], ['get'], ['del']]),
         dict(kind='cachein', form='attr', ro=True, fails=True, base=0, ops=[['get'], ['del'], ['set', 2], ['get']]),
     ]
-    return out + frame_corpus()[8:]
+    return out + frame_corpus()[8:] + big_forms([1001, 1500], ['forms', 'query']) + [big_repeats(700, 400, 'forms')]
 
 
 # --------------------------------------------------------------------------
@@ -383,7 +399,21 @@ def rand_key(rng, lo, hi):
     return rand_text(rng, lo, hi)
 
 
+# literal text that LOOKS like an escape: must come back verbatim (it is sent with its '%' encoded as %25, so a
+# decoder that unquotes twice, or expands %uXXXX / &#x..; / \\u.... on decoded text, changes it)
+ESCAPE_LOOKALIKES = ['%u2019', '%u0041', '%U0041', '%u00e9', '%u', '%u12', '%41', '%2B', '%25', '%2541', '%252B', '%zz',
+                     '%%', '%E9', '%c3%a9', '%0A', '%00', '+%2B+', '&#x41;', '&amp;', '\\u0041', '\\x41', '%uD83D%uDE00']
+
+
 def rand_text(rng, lo, hi):
+    out = rand_text0(rng, lo, hi)
+    if hi >= 2 and rng.random() < 0.12:
+        i = rng.randrange(len(out) + 1)
+        out[i:i] = S(rng.choice(ESCAPE_LOOKALIKES))
+    return out
+
+
+def rand_text0(rng, lo, hi):
     n = rng.randrange(lo, hi + 1)
     out = []
     for _ in range(n):
@@ -613,6 +643,10 @@ def gen(rng, n):
 
 def thorough():
     import itertools
+    yield from big_forms([1000, 1001, 1200, 1500, 2500], ['forms', 'query', 'params_f', 'params_q', 'direct'], 'quote')
+    for via in ('forms', 'query', 'params_f'):
+        yield big_repeats(700, 400, via)
+        yield big_repeats(600, 600, via, 'quote')
     for L in range(0, 6):
         for t in itertools.product('a=&+%4', repeat=L):
             yield dict(kind='raw', qs=S(''.join(t)), via='direct')
